@@ -35,7 +35,7 @@ ASSUMPTIONS = [
     'a fault that never fires (e.g. "last row" of an empty resource) is not counted',
 ]
 BUDGET = {'quick': dict(examples=48, shards=16, seconds=80, chunk=3),
-          'thorough': dict(examples=3200, shards=16, seconds=1500, chunk=20)}
+          'thorough': dict(examples=3200, shards=16, seconds=1200, chunk=20)}
 
 KINDS = [k for k in gp.ALL_KINDS if k not in ('package_fn',)] + ['dump_to_path', 'dump_to_zip', 'stream_file', 'checkpoint'] * 2
 EXC = ['ValueError', 'KeyError', 'Custom', 'AssertionError', 'ts.CastError', 'dp.CastError', 'ts.UniqueKeyError', 'df.ValidationError',
